@@ -612,6 +612,9 @@ def c07(tier):
     for n in (2, 3, 5):
         for cfg in (sma(n), {"k": "Alma", "n": n}):
             adv.append({"cfg": cfg, "unit": 1000, "mode": "range", "eps": [1, 1], "float": "f64", "pairs": True, "xs": extreme_runs(rnd, n, 200), "k": 1})
+    for n in (3, 5):
+        adv.append({"cfg": {"k": "CenterOfGravity", "n": n}, "unit": 1000, "mode": "range", "eps": [1, 1], "float": "f64", "pairs": True,
+                    "xs": extreme_runs(rnd, n, 200, signed=False), "k": 1})
     # the variance-type views on the same thirty decades, starting with tiny values (an accumulator initialised to anything but
     # "nothing seen yet" shows in the first answers only when they are tiny)
     for cfg in ({"k": "WelfordRolling"}, {"k": "WelfordOnline", "n": 3}, {"k": "Vsct", "n": 3}, {"k": "HLNormalizer", "n": 3}, {"k": "Rsi", "n": 3}, {"k": "MyRSI", "n": 3}):
@@ -800,7 +803,10 @@ def c01(tier):
     # three levels: the inner view is itself a chain (a view over a view that withholds, holds or normalises)
     n2_ = lambda k, c=None: dict({"k": k, "n": 2}, **({"c": [c]} if c else {}))
     deep = [n2_("Sma", {"k": "Roc", "n": 1}), n2_("HLNormalizer", n2_("Sma")), n2_("Ema", n2_("LaguerreRSI")), n2_("Max", n2_("Cumulative")),
-            n2_("Roc", n2_("WelfordOnline")), {"k": "Tanh", "c": [n2_("MyRSI")]}]
+            n2_("Roc", n2_("WelfordOnline")), {"k": "Tanh", "c": [n2_("MyRSI")]},
+            # inner views that answer (non-zero) before their first update: the outer view may learn nothing from last() ahead of update()
+            {"k": "Add", "c": [{"k": "Drawdown"}, {"k": "Constant", "v": [3, 2]}]}, {"k": "Add", "c": [n2_("HLNormalizer"), {"k": "Constant", "v": [3, 2]}]},
+            {"k": "Subtract", "c": [n2_("CorrelationTrendIndicator"), {"k": "Constant", "v": [-5, 4]}]}]
     for nb in ((2,) if tier == "quick" else (1, 2, 3)):
         outs = unary(nb)
         for i in range(0, len(outs), 8):
